@@ -2,9 +2,9 @@ package drive
 
 import (
 	"fmt"
-	"strings"
 	"math/rand"
 	"sort"
+	"strings"
 
 	"Havoc/pkg/packager"
 
